@@ -196,10 +196,18 @@ func (c *Cluster) epilogue(p Profile) {
 			c.Advance(2*c.ET() + c.HB())
 		}
 	}
-	keep := c.keepDown()
+	// some of the most recently stopped nodes may stay down (C15 only assumes a running majority): everybody else
+	// is restarted first, because what the restarted nodes have on disk decides which configurations are in use
+	cand := c.keepDownCandidates()
 	for _, id := range c.Order {
 		n := c.Nodes[id]
-		if n.Stopped() && n.everStarted && !keep[id] {
+		if n.Stopped() && n.everStarted && !cand[id] {
+			c.step(Action{Op: "restart", Node: id, Pat: "epilogue"})
+		}
+	}
+	for _, id := range c.keepDownOrder(cand) {
+		if !c.majorityRunsWithout(cand) {
+			delete(cand, id)
 			c.step(Action{Op: "restart", Node: id, Pat: "epilogue"})
 		}
 	}
@@ -227,10 +235,8 @@ func (c *Cluster) epilogue(p Profile) {
 	c.Advance(time.Duration(n-n/2) * c.ET())
 }
 
-// keepDown chooses the nodes that stay down in the fault-free period: at most Header.KeepDown of
-// the stopped nodes, the most recently stopped first, never so many that some configuration reported
-// by a running node would be left without a running majority of its voters.
-func (c *Cluster) keepDown() map[string]bool {
+// keepDownCandidates: at most Header.KeepDown of the stopped nodes, the most recently stopped first.
+func (c *Cluster) keepDownCandidates() map[string]bool {
 	keep := map[string]bool{}
 	if c.H.KeepDown <= 0 {
 		return keep
@@ -242,46 +248,52 @@ func (c *Cluster) keepDown() map[string]bool {
 		}
 	}
 	sort.Slice(down, func(i, j int) bool { return down[i].downSeq.Load() > down[j].downSeq.Load() })
-	var confs []map[string]bool
-	for _, id := range c.Order {
-		if r := c.Nodes[id].Raft(); r != nil && c.Nodes[id].Running() {
-			cf := r.Configuration()
-			vs := map[string]bool{}
-			for m, v := range cf.IsVoter {
-				if v {
-					vs[m] = true
-				}
-			}
-			confs = append(confs, vs)
-		}
-	}
-	if len(confs) == 0 {
-		return keep // nobody runs: everybody is restarted
-	}
-	ok := func() bool {
-		for _, vs := range confs {
-			up := 0
-			for m := range vs {
-				if n := c.Nodes[m]; n != nil && n.everStarted && !keep[m] {
-					up++ // runs already or is about to be restarted
-				}
-			}
-			if up < len(vs)/2+1 {
-				return false
-			}
-		}
-		return true
-	}
 	for _, n := range down {
 		if len(keep) >= c.H.KeepDown {
 			break
 		}
 		keep[n.ID] = true
-		if !ok() {
-			delete(keep, n.ID)
-		}
 	}
 	return keep
+}
+
+// keepDownOrder: the candidates, the one that stopped first comes back first if somebody has to.
+func (c *Cluster) keepDownOrder(cand map[string]bool) []string {
+	var ids []string
+	for id := range cand {
+		ids = append(ids, id)
+	}
+	sort.Slice(ids, func(i, j int) bool { return c.Nodes[ids[i]].downSeq.Load() < c.Nodes[ids[j]].downSeq.Load() })
+	return ids
+}
+
+// majorityRunsWithout: does every configuration reported by a running node keep a running majority of its voters
+// if the nodes in down stay down? A voter that was never started does not count as running.
+func (c *Cluster) majorityRunsWithout(down map[string]bool) bool {
+	any := false
+	for _, id := range c.Order {
+		n := c.Nodes[id]
+		r := n.Raft()
+		if r == nil || !n.Running() {
+			continue
+		}
+		any = true
+		cf := r.Configuration()
+		voters, up := 0, 0
+		for m, v := range cf.IsVoter {
+			if !v {
+				continue
+			}
+			voters++
+			if mn := c.Nodes[m]; mn != nil && mn.Running() && !down[m] {
+				up++
+			}
+		}
+		if voters > 0 && up < voters/2+1 {
+			return false
+		}
+	}
+	return any
 }
 
 // runInBubble executes one case. next yields the actions (generator or script).
